@@ -55,15 +55,23 @@ Section AsmProofs.
   Qed.
 
   Lemma update_only_correct_lemma ord (ps : list pos) (data' : list A) :
-    Permutation ord (seq 0 (length ps)) -> length data' = length ps -> NoDup ps ->
+    Permutation ord (seq 0 (length ps)) -> length data' = length ps ->
     forall p, entry zero add p (update zero ord ps data') = entry zero add p (fresh ps data').
   Proof.
-    intros Hp Hl Hn p. unfold update, cached_structure, fresh.
-    rewrite dedup_adj_nodup.
-    2:{ apply (Permutation_NoDup (l := ps)); [| exact Hn]. symmetry. apply permute_perm. exact Hp. }
-    rewrite combine_permute; [| exact Hl |].
-    2:{ intros i Hi. apply (Permutation_in _ Hp) in Hi. apply in_seq in Hi. lia. }
+    intros Hp Hl p. unfold update, fresh.
+    assert (Hin : forall i, In i ord -> i < length ps).
+    { intros i Hi. apply (Permutation_in _ Hp) in Hi. apply in_seq in Hi. lia. }
+    rewrite (combine_permute (0, 0) zero ord ps data' Hl Hin).
     apply entry_perm. apply permute_perm. rewrite combine_length, Hl, Nat.min_id. exact Hp.
+  Qed.
+
+  Lemma update_shared_nodup_lemma ord (ps : list pos) (data' : list A) :
+    Permutation ord (seq 0 (length ps)) -> length data' = length ps -> NoDup ps ->
+    forall p, entry zero add p (update_shared zero ord ps data') = entry zero add p (fresh ps data').
+  Proof.
+    intros Hp Hl Hn p. rewrite <- (update_only_correct_lemma ord ps data' Hp Hl p).
+    unfold update_shared, shared_structure, update. rewrite dedup_adj_nodup; [reflexivity |].
+    apply (Permutation_NoDup (l := ps)); [| exact Hn]. symmetry. apply permute_perm. exact Hp.
   Qed.
 End AsmProofs.
 
@@ -75,5 +83,6 @@ Definition w_data : list Z := [0; 1; 5]%Z.
 
 Lemma update_only_refuted_lemma :
   Permutation w_ord (seq 0 (length w_ps)) /\ length w_data = length w_ps /\
-  entry 0%Z Z.add (1, 0) (update 0%Z w_ord w_ps w_data) <> entry 0%Z Z.add (1, 0) (fresh w_ps w_data).
-Proof. split; [apply Permutation_refl | split; [reflexivity | vm_compute; discriminate]]. Qed.
+  entry 0%Z Z.add (1, 0) (update_shared 0%Z w_ord w_ps w_data) <> entry 0%Z Z.add (1, 0) (fresh w_ps w_data) /\
+  entry 0%Z Z.add (1, 0) (update 0%Z w_ord w_ps w_data) = entry 0%Z Z.add (1, 0) (fresh w_ps w_data).
+Proof. split; [apply Permutation_refl | split; [reflexivity | split; [vm_compute; discriminate | reflexivity]]]. Qed.
